@@ -4,6 +4,7 @@ import (
 	"fmt"
 	"go/types"
 	"strings"
+	"sync"
 
 	"golang.org/x/tools/go/ssa"
 	"golang.org/x/tools/go/types/typeutil"
@@ -66,7 +67,11 @@ type layoutInfo struct {
 	fields []int // offsets of struct fields
 }
 
-var layouts typeutil.Map
+var (
+	layouts     typeutil.Map
+	layoutsMu   sync.Mutex
+	layoutCache sync.Map // types.Type (pointer identity) -> *layoutInfo
+)
 
 func isNamed(t types.Type, pkg, name string) bool {
 	n, ok := t.(*types.Named)
@@ -99,7 +104,14 @@ func specialLeaves(t types.Type) int {
 }
 
 func layoutOf(t types.Type) *layoutInfo {
-	if l := layouts.At(t); l != nil {
+	if l, ok := layoutCache.Load(t); ok {
+		return l.(*layoutInfo)
+	}
+	layoutsMu.Lock()
+	l := layouts.At(t)
+	layoutsMu.Unlock()
+	if l != nil {
+		layoutCache.Store(t, l)
 		return l.(*layoutInfo)
 	}
 	li := &layoutInfo{}
@@ -122,7 +134,14 @@ func layoutOf(t types.Type) *layoutInfo {
 			li.size = 1
 		}
 	}
-	layouts.Set(t, li)
+	layoutsMu.Lock()
+	if l := layouts.At(t); l != nil {
+		li = l.(*layoutInfo)
+	} else {
+		layouts.Set(t, li)
+	}
+	layoutsMu.Unlock()
+	layoutCache.Store(t, li)
 	return li
 }
 
